@@ -55,6 +55,19 @@ func processOcode(oc ocode.Ocode, ctx *CodeGenContext, machineCode *[]byte) ([]b
 	}
 
 	switch oc.Kind {
+	case ocode.OpMOV, ocode.OpADD, ocode.OpCMP, ocode.OpIMUL, ocode.OpSUB, ocode.OpAND, ocode.OpOR, ocode.OpXOR,
+		ocode.OpNOT, ocode.OpSHR, ocode.OpSHL, ocode.OpSAR, ocode.OpPUSH, ocode.OpPOP:
+		// [ label ] のラベルをアドレスに置き換えます (LGDT は自前で解決します)
+		resolved, err := resolveMemoryLabels(oc.Operands, ctx)
+		if err != nil {
+			return nil, err
+		}
+		oc.Operands = resolved
+		params.Operands = resolved
+		params.OCode = oc
+	}
+
+	switch oc.Kind {
 	case ocode.OpL:
 		return handleL(oc.Operands, ctx.VS)
 	case ocode.OpDB:
